@@ -602,28 +602,6 @@ def inputs_int32 (P : Params) (d : OpDesc) : R := do
 def output_int32 (P : Params) (d : OpDesc) : R := do return (← need (ofm d)).dtype == n!"int32"
 def rsqrt_input_int8 (P : Params) (d : OpDesc) : R := do return (← need (ifm d)).dtype == n!"int8"
 
-/-- `x >= 0` on a Python float given as its binary64 bit pattern: NaN is not, -0.0 is -/
-def f64GeZero (b : Nat) : Bool :=
-  let e := (b / 2 ^ 52) % 2048
-  let m := b % 2 ^ 52
-  let neg := (b / 2 ^ 63) % 2 == 1
-  if e == 2047 && m != 0 then false else if neg then e == 0 && m == 0 else true
-
-/-- `constraint_alpha_valid` (repair C16-20, LEAKY_RELU): "Alpha only allowed to be negative if IFM is int8 or uint8".
-    `alpha = op.attrs["alpha"]` is read first (KeyError when absent), then `op.ifm.dtype`;
-    `valid = ifm_dtype == int8 or ifm_dtype == uint8 or alpha >= 0`.  The lowering of a 16-bit LEAKY_RELU with a negative
-    alpha hands the register generator an elementwise MUL whose OFM scale is negative (outside the unsigned 32-bit
-    field, Props/C06 `field_roundtrip_payload32`); the 8-bit operators go through a table and are unaffected. -/
-def alpha_valid (P : Params) (d : OpDesc) : R := do
-  let nonneg ← match attr? d n!"alpha" with
-    | none => exc
-    | some (.flt b) => pure (f64GeZero b)
-    | some (.int i) => pure (decide (i ≥ 0))
-    | some (.bool b) => pure true
-    | some _ => .error "unmodelled:attr-type"
-  let i ← need (ifm d)
-  return i.dtype == n!"int8" || i.dtype == n!"uint8" || nonneg
-
 def matching_quantization_parameters (P : Params) (d : OpDesc) : R := do
   let o ← need (ofm d)
   let a ← scalingEqual o (← need (ifm d))
@@ -1011,7 +989,7 @@ def supPreds : List (Name × (Params → OpDesc → R)) :=
     (n!"constraint_stridedslice_stride_values", Sup.stridedslice_stride_values),
     (n!"constraint_stridedslice_offset_false", Sup.stridedslice_offset_false),
     (n!"constraint_inputs_int32", Sup.inputs_int32), (n!"constraint_output_int32", Sup.output_int32),
-    (n!"constraint_rsqrt_input_int8", Sup.rsqrt_input_int8), (n!"constraint_alpha_valid", Sup.alpha_valid),
+    (n!"constraint_rsqrt_input_int8", Sup.rsqrt_input_int8),
     (n!"constraint_matching_quantization_parameters", Sup.matching_quantization_parameters),
     (n!"constraint_broadcast_shapes", Sup.broadcast_shapes),
     (n!"constraint_mean_height_width_product", Sup.mean_height_width_product),
